@@ -15,6 +15,12 @@ func init() { register("C12", checkC12) }
 // dampPeerRule: dampPeer() is true exactly for codes other than Cease.
 func (c *Check) dampPeerRule(rule string) {
 	p := c.P
+	if !p.HasFn("notificationError.dampPeer") {
+		// the predicate written out where it is used: decided there (the
+		// handle-error cases assume the notification's code instead)
+		c.ok(rule, "peer.handleError", "damp predicate inlined", "-", "no dampPeer method: the handle-error cases are stated on the notification's code")
+		return
+	}
 	fn := p.Fn("notificationError.dampPeer")
 	if fn == nil {
 		return
@@ -128,6 +134,15 @@ func checkC12(c *Check) {
 	}{{"notification error that damps", 1, 1, true}, {"notification error that does not damp (Cease)", 1, 0, false}, {"not a notification error (transport)", 0, 0, false}} {
 		a := NewAnalysis(p, he)
 		a.AtomHook = hooks(rangeHook(isAs, isConst(w.as)), rangeHook(isDamp, isConst(w.damp)))
+		if !p.HasFn("notificationError.dampPeer") {
+			// damping is "any code but Cease"
+			cease := p.MustConst("NOTIF_CODE_CEASE")
+			codes := isConst(cease)
+			if w.damp == 1 {
+				codes = isRange(0, 255).Minus(isConst(cease))
+			}
+			a.AtomHook = hooks(rangeHook(isAs, isConst(w.as)), rangeHook(func(e *Expr) bool { return isFieldRead(e, "Code") }, codes))
+		}
 		a.EventArgs = func(st *State, desc string, args []*Expr) string {
 			if desc == "peer.disableFSM" && len(args) == 2 {
 				if v, ok := st.rangeOf(args[1]).IsConst(); ok {
